@@ -166,7 +166,12 @@ pub fn gen_scenario(ctx: &Ctx, r: &mut Rng, cfg: Config) -> Scenario {
         // now and then a credential with more than a thousand hideable array elements (hard caps on
         // the number of '~'-separated parts, small counters): sizes are not bounded by the properties
         let n = *r.pick(&[1022usize, 1023, 1024, 1025, 1100, 2050]);
-        u["roster#99990;"] = Value::Array((0..n).map(|i| json!(i % 7)).collect());
+        if r.chance(25) {
+            // ... or a few thousand small OBJECTS (each gets decoys when those are on: > 4096 digests)
+            u["roster#99990;"] = Value::Array((0..2 * n).map(|i| json!({"i": i % 7})).collect());
+        } else {
+            u["roster#99990;"] = Value::Array((0..n).map(|i| json!(i % 7)).collect());
+        }
     }
     let strat = gen::gen_strategy(r, &u, cfg.strat);
     Scenario {
